@@ -18,15 +18,16 @@ import replay  # noqa: E402
 
 SPEC = replay.SPEC
 BIG = replay.BIG
-CAP = 256
 CLIENT_ID = "ar"
 CONNLEN = 30
 
 
-def gen(seed, num, depth, workdir, timeout=300):
+def gen(seed, num, depth, workdir, cap, timeout=300):
     os.makedirs(workdir, exist_ok=True)
-    for f in ("Arena.tla", "MC_arenasim.tla", "MC_arenasim.cfg"):
+    for f in ("Arena.tla", "MC_arenasim.tla"):
         subprocess.run(["cp", os.path.join(SPEC, f), workdir], check=True)
+    cfg = open(os.path.join(SPEC, "MC_arenasim.cfg")).read()
+    open(os.path.join(workdir, "MC_arenasim.cfg"), "w").write(re.sub(r"CAP = \d+", "CAP = %d" % cap, cfg))
     cmd = "timeout %d %s -workers 1 -seed %d -simulate num=%d -depth %d -metadir %s/meta -cleanup -noGenerateSpecTE -config MC_arenasim.cfg MC_arenasim.tla" % (
         timeout, replay.TLC, seed, num, depth, workdir)
     r = subprocess.run(cmd, shell=True, cwd=workdir, capture_output=True, text=True)
@@ -53,11 +54,13 @@ def puback(pid):
     return [0x40, 0x02, pid >> 8, pid & 255]
 
 
-def to_scenario(hist, name):
+def to_scenario(hist, name, cap):
     steps = [{"e": "conn"}, {"e": "w", "acc": BIG}, {"e": "f", "r": "ok"}, {"e": "b", "bytes": [0x20, 3, 0, 0, 0]},
              {"e": "r", "got": BIG}, {"e": "r", "got": BIG}, {"e": "r", "got": BIG}]
     unsent = 0          # retained packets that the next call retransmits first (after a resumed reconnect)
     n = 0
+    expect = []         # per return of the run (after the first connect): the model record to compare with
+    prev = {"a": "init", "p": 0, "r": "ok", "ret": [], "used": 0}
     for h in hist:
         a, p = h["a"], h["p"]
         resend = [{"e": "w", "acc": BIG}, {"e": "f", "r": "ok"}] * unsent
@@ -76,10 +79,15 @@ def to_scenario(hist, name):
             if h["r"] == "ok":
                 steps += [{"e": "w", "acc": BIG}, {"e": "f", "r": "ok"}]
         elif a == "ack":
+            if unsent:
+                # a poll that made wire progress (the retransmissions) returns before it reads; the
+                # broker acknowledges what it has received on this connection
+                steps.append({"e": "poll"})
+                steps += resend
+                expect.append(dict(prev, a="resend"))
+                unsent = 0
             steps.append({"e": "b", "bytes": puback(p)})
             steps.append({"e": "poll"})
-            steps += resend
-            unsent = 0
             steps += [{"e": "r", "got": BIG}] * 3
         elif a == "reconn":
             sp = p == 1
@@ -88,14 +96,19 @@ def to_scenario(hist, name):
             unsent = len(h["ret"]) if sp else 0
         else:
             raise ValueError(a)
-    cfg = {"rx": 64, "tx": CAP, "client_id": replay.b(CLIENT_ID), "ka": 0, "sei": 60, "name": name}
-    return {"cfg": cfg, "steps": steps, "drain": True}
+        expect.append(h)
+        prev = h
+    cfg = {"rx": 64, "tx": cap, "client_id": replay.b(CLIENT_ID), "ka": 0, "sei": 60, "name": name}
+    return {"cfg": cfg, "steps": steps, "drain": True}, expect
 
 
-ERR = {"BufferTooSmall": ("err", "BufferTooSmall"), "NotReady": ("err", "NotReady"), "ok": ("ok", None)}
+# a payload that does not fit behind an encoded header is reported as a payload error, a header that does
+# not fit as BufferTooSmall: the model does not tell the two apart
+ERR = {"BufferTooSmall": ("err", ("BufferTooSmall", "Payload")), "NotReady": ("err", ("NotReady",)), "ok": ("ok", None),
+       "InflightExhausted": ("err", ("InflightExhausted",))}
 
 
-def compare(hist, lines):
+def compare(hist, lines, cap):
     events = []
     for ln, line in enumerate(lines, 1):
         e = json.loads(line)
@@ -117,27 +130,30 @@ def compare(hist, lines):
         want = ([list(x) for x in h["ret"]], h["used"])
         if h["a"] in ("pub", "q0"):
             k, v = ERR[h["r"]]
-            if e["r"]["k"] != k or (v and e["r"]["v"] != v):
+            if e["r"]["k"] != k or (v and e["r"]["v"] not in v):
                 out.append("line %d (%s %s): result %s:%s, specification %s" % (ln, h["a"], h["p"], e["r"]["k"], e["r"]["v"], h["r"]))
         if got != want:
             out.append("line %d (%s %s): retained (id, offset, len) / used = %s, specification %s" % (ln, h["a"], h["p"], got, want))
-        if snap["cap"] != CAP:
+        if snap["cap"] != cap:
             out.append("line %d: arena capacity %s" % (ln, snap["cap"]))
         if out:
             break
     return out
 
 
-def run(seed, num, depth, outdir, mqv):
+def run(seed, num, depth, outdir, mqv, cap=256):
     os.makedirs(outdir, exist_ok=True)
-    hists, viol = gen(seed, num, depth, os.path.join(outdir, "tlc"))
+    hists, viol = gen(seed, num, depth, os.path.join(outdir, "tlc"), cap)
     if viol:
         raise RuntimeError("the arena specification violates its own invariant: " + viol[:600])
-    scen = os.path.join(outdir, "arenasim.ndjson")
+    scen = os.path.join(outdir, "arenasim-%d.ndjson" % cap)
+    expects = []
     with open(scen, "w") as f:
         for i, h in enumerate(hists):
-            f.write(json.dumps(to_scenario(h, "arenasim-%d-%d" % (seed, i))) + "\n")
-    trace = os.path.join(outdir, "arenasim.trace")
+            sc, ex = to_scenario(h, "arenasim-%d-%d-%d" % (cap, seed, i), cap)
+            expects.append(ex)
+            f.write(json.dumps(sc) + "\n")
+    trace = os.path.join(outdir, "arenasim-%d.trace" % cap)
     r = subprocess.run([mqv, "run", scen, trace], capture_output=True, text=True)
     if r.returncode != 0:
         raise RuntimeError(r.stderr[-2000:])
@@ -150,15 +166,16 @@ def run(seed, num, depth, outdir, mqv):
         cur.append(line)
     runs.append(cur)
     bad = []
-    for i, (h, lines) in enumerate(zip(hists, runs)):
-        mm = compare(h, lines)
+    for i, (h, lines) in enumerate(zip(expects, runs)):
+        mm = compare(h, lines, cap)
         if mm:
             bad.append((i, mm))
     return trace, bad, len(hists), sum(len(h) for h in hists)
 
 
 if __name__ == "__main__":
-    trace, bad, n, steps = run(int(sys.argv[1]), int(sys.argv[2]), int(sys.argv[3]), sys.argv[4], sys.argv[5])
+    trace, bad, n, steps = run(int(sys.argv[1]), int(sys.argv[2]), int(sys.argv[3]), sys.argv[4], sys.argv[5],
+                               int(sys.argv[6]) if len(sys.argv) > 6 else 256)
     for i, mm in bad[:8]:
         print("NONCONFORMANT", i, mm[:2])
     print("behaviours=%d steps=%d nonconformant=%d" % (n, steps, len(bad)))
